@@ -208,7 +208,7 @@ def main():
     engine.build(['asan'] if quick else ['asan', 'msan'])
     dl = ck.deadline
     layouts = list(itertools.product(STATES, repeat=4))
-    L = 3
+    L = 3 if quick else 4
     for n in range(0, L + 1):
         seqs = list(itertools.product(range(len(POOL)), repeat=n))
         shards = [([s], layouts[k::3], [0x00, 0xBE, 0xFF], 'asan', dl) for s in seqs for k in range(3)]
